@@ -241,6 +241,16 @@ class GroupBy:
                 self._factorize_group_key_in_chunks(group_key)
             else:
                 self._group_ikey, self._result_index = factorize_1d(group_key)
+                if (
+                    not sort
+                    and self._result_index.dtype == bool
+                    and len(self._group_ikey)
+                    and self._group_ikey[0] == 1
+                ):
+                    # boolean keys are always coded False, True: restore the order of first
+                    # appearance, as for the other key types
+                    self._group_ikey = 1 - self._group_ikey
+                    self._result_index = self._result_index[::-1]
         else:
             self._sort = sort
             self._group_ikey, self._result_index = factorize_2d(
